@@ -25,7 +25,7 @@
    the manager among the employees). *)
 From Coq Require Import List ZArith Bool.
 From Model Require Import Inherit.
-From Proofs Require Import InheritTop InheritWitness.
+From Proofs Require Import InheritTop InheritWitness InheritSet.
 Import ListNotations.
 Open Scope Z_scope.
 
@@ -100,6 +100,24 @@ Theorem C15_attr_write_ancestor_row : forall auto s id k e col v s' r, reachable
      val_of s' col id = ov /\
      r = RSeen (map (fun _ => mkobj id k (map (fun c => val_of s' c id) (chain k))) (chain k))).
 Proof. exact (@attr_write). Qed.
+
+(* Multi-column set() through a child: an invalid value for an OWN column is
+   raised before anything is written at any level, whatever else the call
+   holds; and (guard set_guard: that, or at most one column) a set that raises
+   changes nothing.  Without the guard false (finding inherit_set_not_atomic):
+   inherited columns are assigned one by one before the own UPDATE. *)
+Theorem C15_set_own_invalid_writes_nothing : forall auto s e id ob kvs x, get_obj s e id = inr ob ->
+  validate_all (filter (fun kv => cls_eqb (fst kv) (ocls ob)) kvs) = Some x ->
+  step auto s (SetMany e id kvs) = (s, RErr x).
+Proof. exact (@set_own_invalid). Qed.
+Definition C15_set_raise_changes_nothing_full : Prop := forall auto ops e id kvs s' x,
+  step auto (run auto init ops) (SetMany e id kvs) = (s', RErr x) -> s' = run auto init ops.
+Theorem C15_set_raise_changes_nothing_partial : forall auto s e id ob kvs s' x, reachable auto s ->
+  get_obj s e id = inr ob -> set_guard (ocls ob) kvs = true ->
+  step auto s (SetMany e id kvs) = (s', RErr x) -> s' = s.
+Proof. exact (@set_raise_guarded). Qed.
+Theorem C15_set_raise_changes_nothing_refuted : ~ C15_set_raise_changes_nothing_full.
+Proof. exact (@set_raise_refuted). Qed.
 
 (* Select on class k with a filter over own and inherited columns (and id):
    the SQL the code builds (childName filter on the parent, id-joins up to the
@@ -223,6 +241,10 @@ Example C15_example_selectby :
   snd (step true ex_state (SelectBy KB (Some KA) (Some 6))) = RObjs [mkobj 9 KC [Some 6; Some 6; Some 6]] 1 [KA; KB] /\
   snd (step true ex_state (ByX KC 2)) = RErr ENotFound /\ snd (step true ex_state (ByX KA 2)) = RObj (mkobj 2 KB [Some 2; Some 2]).
 Proof. vm_compute. repeat split. Qed.
+Example C15_example_set_own_invalid :
+  step true ex_state (SetMany KA 9 [(KA, Int 7); (KB, Int 7); (KC, Bad)]) = (ex_state, RErr EInvalid) /\
+  set_guard KC [(KA, Int 7); (KB, Int 7); (KC, Bad)] = true.
+Proof. vm_compute. split; reflexivity. Qed.
 Example C15_example_failed_create_hyp :
   zmem (seq ex_state + 1) (refs ex_state) = false /\
   snd (step true ex_state (Create KC (mkargs (Int 7) (Int 7) (Int 6) Omit) false)) = RErr EDup.
@@ -245,6 +267,9 @@ Print Assumptions C15_most_derived_refuted.
 Print Assumptions C15_get_sound.
 Print Assumptions C15_attr_same_through_levels.
 Print Assumptions C15_attr_write_ancestor_row.
+Print Assumptions C15_set_own_invalid_writes_nothing.
+Print Assumptions C15_set_raise_changes_nothing_partial.
+Print Assumptions C15_set_raise_changes_nothing_refuted.
 Print Assumptions C15_select_own_kind.
 Print Assumptions C15_selectby_own_kind.
 Print Assumptions C15_by_alternate_id.
